@@ -34,6 +34,12 @@ def main():
     d = ("/tmp/sn-" if "--round14" in sys.argv else "/tmp/sm-" if "--round13" in sys.argv else "/tmp/sl-" if "--round12" in sys.argv else "/tmp/sk-" if "--round11" in sys.argv else "/tmp/sj-" if "--round10" in sys.argv else "/tmp/si-" if "--round9" in sys.argv else "/tmp/sh-" if "--round8" in sys.argv else "/tmp/sg-" if "--round7" in sys.argv else "/tmp/sf-" if "--round6" in sys.argv else "/tmp/se-" if "--round5" in sys.argv else "/tmp/sd-" if "--round4" in sys.argv else "/tmp/sc-" if "--round3" in sys.argv else "/tmp/sb-" if "--round2" in sys.argv else "/tmp/sa-") + prop
     repo = d + "/repo"
     env = dict(os.environ, CARGO_TARGET_DIR=d + "/target", CARGO_NET_OFFLINE="true", RUST_BACKTRACE="0")
+    if os.path.exists(d + "/patch.diff") and open(d + "/patch.diff").read().strip():
+        # the agent's patch.diff is the reference (a worktree may have caught a foreign change through a shared stash)
+        sh("git -C %s checkout -- ." % repo)
+        a = sh("git -C %s apply %s/patch.diff" % (repo, d))
+        if a.returncode:
+            print("cannot apply patch.diff", a.stderr); sys.exit(1)
     diff = sh("git -C %s diff" % repo).stdout
     if not diff.strip():
         print("worktree has no change applied; trying patch.diff")
@@ -53,9 +59,11 @@ def main():
     npass = sum(int(re.search(r"(\d+) passed", l).group(1)) for l in lines if "passed" in l)
     print("repo tests with patch:", "PASS" if tests_ok else "FAIL", npass, "passed")
     rc_with, out_with = run_demo(d, env)
-    sh("git -C %s stash" % repo)
+    # not `git stash`: the stash is shared by all worktrees of /repo and concurrent users swap their changes
+    open(d + "/ingest.diff", "w").write(diff)
+    sh("git -C %s checkout -- ." % repo)
     rc_without, out_without = run_demo(d, env)
-    sh("git -C %s stash pop" % repo)
+    sh("git -C %s apply %s/ingest.diff" % (repo, d))
     print("demo with patch: exit", rc_with, "| without: exit", rc_without)
     ok = tests_ok and rc_with != 0 and rc_without == 0
     if not ok:
